@@ -2,4 +2,4 @@
    map to the OCaml types of the same shape; Z, positive, nat stay inductive; no Extract Constant. *)
 From Coq Require Import ExtrOcamlBasic.
 Require Import Verif.HdbModel.
-Extraction "model_C20.ml" hdb_init step run dlog.
+Extraction "model_C20.ml" hdb_init step run dlog base_convert nocheck_convert.
